@@ -49,7 +49,7 @@ class P(b1.Plugin):
     rule = ("enum definitions with 1-4 variants over unit/tuple/named shapes, payload types with niches or zero size (bool, char, "
             "NonZeroU8, &u8, Option<Box<u8>>, nested enum, ZST, u8), #[repr] in {none,u8,i8,u16,i32,u64,isize,C,'C, u8','u8, align(4)',"
             "align(8),align(2)}, explicit discriminants incl. negative and >127/>32767 where the repr allows, written as literals or as expressions "
-            "(`a << b`, `a & m`, `a | b`, `a ^ b`, and the type-dependent `!k`); all ordered value pairs, "
+            "(`a << b`, `a & m`, `a | b`, `a ^ b`, the type-dependent `!k`, named constants `K`, `K + 0`, `self::K`); all ordered value pairs, "
             "each comparison repeated with both operands embedded in #[repr(C)] wrappers with different trailing bytes (ops cmpw/pcmpw). "
             "distinct_nontrivial = definitions with >=2 variants or a payload, on which at least two different results were observed")
 
@@ -69,6 +69,7 @@ class P(b1.Plugin):
         if r == "C, u8" and all_unit:
             r = "u8"                                   # rustc: conflicting representation hints on a fieldless enum
         ri = repr_int(r)
+        consts = []
         # explicit discriminants: legal on fieldless enums, or with a primitive repr
         if td.variants and (all_unit or ri) and rng.random() < 0.6:
             lo, hi = INT_RANGE[ri] if ri else (-2**31, 2**31 - 1)
@@ -84,6 +85,11 @@ class P(b1.Plugin):
                         continue
                     v.disc = d
                     v.disc_src = spell_disc(rng, d, ri)
+                    if v.disc_src is None and rng.random() < 0.15:
+                        # a named constant of the enum's integer type
+                        cname = "K%d_%s" % (i, v.name)
+                        consts.append("pub const %s: %s = %d;" % (cname, ri or "isize", d))
+                        v.disc_src = rng.choice([cname, "%s + 0" % cname, "self::%s" % cname])
                     cur = d
                 else:
                     cur = 0 if cur is None else cur + 1
@@ -100,7 +106,7 @@ class P(b1.Plugin):
         metas = {"ord": ["Ord"], "partialord": ["PartialOrd"], "both": ["Ord", "PartialOrd"]}[mode]
         rng.shuffle(metas)
         td.traits = [", ".join(metas)]
-        td.extra_items = supertrait_items(td, mode)
+        td.extra_items = supertrait_items(td, mode) + consts
         td.extra_json = {"ordmode": mode}
         td.mode = mode
         draw_ord_fields(rng, td, mode, explicit_rank_p=0.2)
